@@ -1099,3 +1099,94 @@ def flush_forward(ctx):
             ctx.ok(key, f.loc(sorted(inner)[0]), 'every Ok return lies behind one of %d forwarded flush call(s)' % len(inner))
     if not n:
         ctx.anchor_missing('Write::flush implementations that forward to a sink')
+
+
+# --------------------------------------------------------------------------- FRESH-LIMIT / NORMALIZE-AFTER-MARKER
+
+@rule('FRESH-LIMIT', ['C07', 'C06'], floor=1)
+def fresh_limit(ctx):
+    """LZMAReader::read_decode runs the decoder in a loop (a second round is needed when the LZ window wraps inside one
+    read call). The limit it hands to `LZDecoder::set_limit` in each round must be computed from what is left of the
+    caller's buffer in THAT round: the value passed is defined inside the loop. A limit computed once before the loop
+    lets the second round decode more than the buffer still holds, and `LZDecoder::flush` runs past its end (panic)
+    for buffer sizes that straddle a wrap position - the result depends on the caller's read sizes."""
+    F = ctx.facts
+    fs = [f for f in F.fns if f.key == 'LZMAReader::read_decode']
+    if not fs:
+        ctx.anchor_missing('LZMAReader::read_decode')
+        return
+    f = fs[0]
+    key = '%s:limit-recomputed-every-round' % f.key
+    calls = [(bi, t) for bi, t, c in f.calls() if c.name == 'set_limit' and f.in_loop(bi)]
+    if not calls:
+        ctx.violation(key, f.loc(0), 'no set_limit call inside the decode loop: anchor lost (fail closed)')
+        return
+    bi, t = calls[0]
+    body = min((b for h, b in f.loops().items() if bi in b), key=len)
+    # locals the argument is computed from (through use/cast), and where they are defined
+    roots = set()
+    work = [op_local(t['args'][1])]
+    seen = set()
+    while work:
+        l = work.pop()
+        if l is None or l in seen:
+            continue
+        seen.add(l)
+        for (db, ds, dk, node) in f.whole_defs(l):
+            if dk == 'assign' and node['rv']['r'] in ('use', 'cast') and op_local(node['rv']['o']) is not None and not f.locals[l].get('name'):
+                work.append(op_local(node['rv']['o']))
+            else:
+                roots.add((l, db))
+    named = {l for l, _ in roots}
+    stale = [l for l in named if not any(db in body for (l2, db) in roots if l2 == l)]
+    if stale:
+        ctx.violation(key, f.loc(bi), 'the limit passed to set_limit (`%s`) is only defined before the loop: the second round of one read call (window '
+                      'wrap) uses the limit of the first and decodes more than the caller\'s buffer still holds' % (f.local_name(stale[0])))
+    else:
+        ctx.ok(key, f.loc(bi), 'the limit is assigned inside the loop in every round')
+
+
+@rule('NORMALIZE-AFTER-MARKER', ['C16'], floor=1)
+def normalize_after_marker(ctx):
+    """`LZMADecoder::decode` ends with a range-coder normalisation, except when it meets the end marker: it returns
+    early (as an Err sentinel) and skips it. The stream's last byte is only pulled from the source by that
+    normalisation when the range is below 2^24 at that point, so the owner of the decoder has to do it: on the path
+    of LZMAReader::read_decode where `end_marker_detected()` holds, `RangeDecoder::normalize` is called before the
+    function can return. Without it the reader stops one byte short of the end of about one stream in eight and what
+    follows the stream is mis-read."""
+    F = ctx.facts
+    fs = [f for f in F.fns if f.key == 'LZMAReader::read_decode']
+    if not fs:
+        ctx.anchor_missing('LZMAReader::read_decode')
+        return
+    f = fs[0]
+    prov = Prov(f)
+    key = '%s:marker-path-normalizes' % f.key
+    norm = {bi for bi, t, c in f.calls() if c.name == 'normalize' and 'RangeDecoder' in c.path}
+    starts = []
+    for b in sorted(f.reachable):
+        t = f.blocks[b]['term']
+        if t['k'] != 'switch':
+            continue
+        se = switch_edges(f, b)
+        if not se:
+            continue
+        cond = prov.operand(t['discr'], 0, '%d:T' % b)
+        c = cond
+        pol = True
+        while c[0] == 'un' and c[1] == 'Not':
+            c = c[2]
+            pol = not pol
+        if c[0] == 'call' and last_seg(c[1]) == 'end_marker_detected':
+            starts.append((b, se[1] if pol else se[0]))
+    if not starts:
+        ctx.violation(key, f.loc(0), 'cannot find the test of end_marker_detected(): anchor lost (fail closed)')
+        return
+    b, tgt = starts[0]
+    free = f.reach_from([tgt], stop=norm)
+    rets = [x for x in free if f.blocks[x]['term']['k'] == 'return']
+    if rets:
+        ctx.violation(key, f.loc(b), 'after the end marker was detected a return is reachable without RangeDecoder::normalize: decode() skips its final '
+                      'normalisation on the marker path, so the last byte of the stream may stay unread in the source')
+    else:
+        ctx.ok(key, f.loc(b), 'every path from the end-marker branch to a return calls RangeDecoder::normalize')
